@@ -127,6 +127,7 @@ func (e *c06E2E) connMsg(secret []byte, covert string, src pb.RegistrationSource
 		V6Support:           &v6,
 		DecoyListGeneration: &gen,
 		ClientLibVersion:    &libv,
+		Flags:               e.msgFlags(),
 	}
 	if tp == pb.TransportType_DTLS {
 		// the client's own address as the DTLS transport wants it: a dead loopback UDP port, so that the
@@ -160,7 +161,7 @@ func (e *c06E2E) runConnecting(class, variant, mode string, tp pb.TransportType,
 	if tp == pb.TransportType_DTLS {
 		tpName = "dtls"
 	}
-	label := fmt.Sprintf("connecting:%s %s transport=%s policy=%s source=%s dual=%v", class, variant, tpName, mode, src, dual)
+	label := fmt.Sprintf("connecting:%s %s transport=%s policy=%s source=%s dual=%v flags=%s", class, variant, tpName, mode, src, dual, e.flagsName)
 	e.rec.Case(label)
 	e.logbuf.Take()
 
@@ -401,7 +402,8 @@ func (e *c06E2E) runConnecting(class, variant, mode string, tp pb.TransportType,
 	e.connectsOK += connectsOK
 	e.rec.Count("evaluations", 1)
 	e.rec.Count("connecting_evaluations", 1)
-	e.rec.Distinct("nontrivial", "connecting", class, variant, tpName, mode, src.String(), dual)
+	e.rec.Distinct("nontrivial", "connecting", class, variant, tpName, mode, src.String(), dual, e.flagsName)
+	e.rec.Count("flags["+e.flagsName+"].cases", 1)
 	e.rec.Distinct("connecting_kinds", class, variant, tpName, mode)
 	if e.connSamples < 2 && connectsOK > 0 && name != "" {
 		e.connSamples++
